@@ -8,7 +8,7 @@ def showIds (l : List Nat) : Str := if l.isEmpty then ['-'] else Str.join [','] 
 
 def handle : List Str → Str
   | [op, _namer, _spec, perm, keys, names] =>
-    if op = str "universe" then
+    if op = str "universe" || op = str "context" then
       let ks := (unhexList keys).toArray
       let ns := (unhexList names).toArray
       let entries : List Entry := (ids perm).map fun i => (ks.getD i [], i)
